@@ -168,11 +168,11 @@ def register(reg):
             return
         lid = lock_id(eng.heap_read(st, s, "HC._request_lock"))
         if lid in st.held:
-            o = old.get("HC._connection", eng.initial_array("HC._connection", IntS))
+            o = eng.old_arr(old, "HC._connection", IntS)
             eng.assume(st, z3.Select(eng.heap_arr(st, "HC._connection", IntS), s.t) == z3.Select(o, s.t))
         else:
             # once set, _connection is never cleared or replaced
-            o = old.get("HC._connection", eng.initial_array("HC._connection", IntS))
+            o = eng.old_arr(old, "HC._connection", IntS)
             n = eng.heap_arr(st, "HC._connection", IntS)
             eng.assume(st, z3.Implies(z3.Select(o, s.t) != 0, z3.Select(n, s.t) == z3.Select(o, s.t)))
 
@@ -250,6 +250,7 @@ def register(reg):
     @reg.contract
     class Connect(Contract):
         key = HC + "._connect"
+        callsite_events = {'backoff.next', 'net.start_tls', 'net.connect_tcp', 'net.sleep', 'net.connect_unix'}
         props = ("C20", "C10", "C16", "C06", "C14", "C15", "C05")
         result_kind = "ref:" + NS
         raises = NET_CONNECT_RAISES + ["Cancelled"]
@@ -410,6 +411,7 @@ def register(reg):
     @reg.contract
     class HandleRequest(Contract):
         key = HC + ".handle_async_request"
+        callsite_events = {'H2.__init__', 'H11.__init__', 'call:httpcore._async.connection.AsyncHTTPConnection._connect', 'ci.handle_request'}
         props = ("C05", "C06", "C10", "C14", "C15", "C20", "C01", "C04", "C08")
         raises = CONN_RAISES + ["RuntimeError", "Cancelled"]
         raises_props = ("C15",)
